@@ -242,6 +242,32 @@ func c11Case(c *mc.Ctx, cfg ref.Cfg, it ref.Item, v ref.V, vs string, undoc stri
 				}
 			}
 		}
+		// the same data decoded AGAIN into the value just decoded (every map key, pointer and slice it
+		// would create already exists there), from another buffer that is then overwritten
+		if hasPayload(t, v) {
+			c.Dim("redecode-into-result")
+			in3 := append(make([]byte, 0, len(data)), data...)
+			dstR := fresh(t)
+			if p.Unmarshal(data, dstR.Interface()) != nil {
+				return
+			}
+			if err := p.Unmarshal(in3, dstR.Interface()); err == nil {
+				var r3 []memRange
+				reach(dstR.Elem(), "", &r3)
+				if w := overlaps(r3, in3); w != "" {
+					c.Violation(pre+"decoded-value-shares-memory-with-input"+w, fmt.Sprintf("after decoding the same data into the populated result: %s of it lies inside the second input buffer", w))
+					return
+				}
+				after := ref.Str(t, ref.FromReflect(t, dstR.Elem()))
+				for i := range in3 {
+					in3[i] ^= 0xff
+				}
+				if now := ref.Str(t, ref.FromReflect(t, dstR.Elem())); now != after {
+					c.Violation(pre+"decoded-value-changed-after-input-overwritten:redecode", fmt.Sprintf("decoded into the populated result %s, after overwriting that input %s", after, now))
+					return
+				}
+			}
+		}
 		// a second decode through the same instance (interning, pools) after the overwrite
 		dst2 := fresh(t)
 		if err := p.Unmarshal(data, dst2.Interface()); err == nil {
